@@ -1,6 +1,146 @@
 import Driver.Util
+import Sqfs.Model.Quote
+import Sqfs.Model.QuoteOld
+import Sqfs.Spec.Quote
+/-
+`sqfsmodel c16` — one operation per line:
+
+  split <hexline>                                   → `ok <n> <tok>...` | `err quote` | `err esc`
+  pos <hexline>                                     → `ok <dst>:<src> ...`   (cursor pairs at each token start)
+  num <base> <vmax> <hex>                           → `ok <n>` | `err corrupted|overflow|oob`
+  parse <keepUid> <forceUid> <keepGid> <forceGid> <hexcontent>
+                                                    → `ents <k> {<name> <mode> <uid> <gid> <rdev> <extra|NULL>}* st=<status>`
+  desc <new|old> <root|NONE> <kind> <perm> <uid> <gid> <devno> <target> <ncomps> <comp>...
+                                                    → `ok <hexline>` | `err <why>`
+  expect <root|NONE> <kind> <perm> <uid> <gid> <devno> <target> <ncomps> <comp>...
+                                                    → `ents 1 …` in the format of `parse` (the specification), or `ents 0 st=ok`
+  dtree <new|old> <root|NONE> <n> {<depth> <kind> <perm> <uid> <gid> <devno> <target> <name>}*   (pre-order, depth of root = 0)
+                                                    → `ok <hex output>` | `err <why>`
+-/
 namespace Driver.C16
-/-- stub: the model driver for C16 is not built yet -/
+open Sqfs.Quote
+
+def kindOf : String → Option Kind
+  | "dir" => some .dir | "file" => some .file | "slink" => some .slink | "chr" => some .chr
+  | "blk" => some .blk | "fifo" => some .fifo | "sock" => some .sock | "other" => some .other
+  | _ => none
+
+def showSplitErr : SplitErr → String
+  | .unmatchedQuote => "quote" | .escape => "esc" | .fuel => "fuel"
+
+def showHErr : HErr → String
+  | .entry => "entry" | .keyword => "keyword" | .root => "root" | .mode => "mode" | .uidGid => "uidgid"
+  | .noExtra => "noextra" | .tooMany => "toomany" | .devArgs => "devargs" | .devType => "devtype"
+  | .devNum => "devnum" | .glob => "glob"
+
+def showDErr : DErr → String
+  | .insaneName => "insane" | .path => "path" | .canon => "canon"
+
+def showEntry (e : Entry) : String :=
+  s!"{toHexTok e.name} {e.mode} {e.uid} {e.gid} {e.rdev} " ++ (match e.extra with | none => "NULL" | some x => toHexTok x)
+
+def showParse (r : List Entry × Option FErr) : String :=
+  let st := match r.2 with
+    | none => "ok"
+    | some (.split e) => "split:" ++ showSplitErr e
+    | some (.handle e) => "h:" ++ showHErr e
+  s!"ents {r.1.length}" ++ String.join (r.1.map (fun e => " " ++ showEntry e)) ++ " st=" ++ st
+
+def optRoot (s : String) : Option (Option (List UInt8)) :=
+  if s = "NONE" then some none else (fromHex s).map some
+
+def allSome {α} : List (Option α) → Option (List α)
+  | [] => some []
+  | none :: _ => none
+  | some a :: r => (allSome r).map (a :: ·)
+
+def nodeOf (kind perm uid gid devno target : String) : Option Node := do
+  let k ← kindOf kind
+  let t ← fromHex target
+  pure { kind := k, perm := ← perm.toNat?, uid := ← uid.toNat?, gid := ← gid.toNat?, devno := ← devno.toNat?, target := t }
+
+/-- build the forest of nodes deeper than `d` from a pre-order list; returns the forest and the unconsumed rest -/
+partial def forest (d : Nat) (l : List (Nat × Sqfs.Path.Bytes × Node)) : List Tree × List (Nat × Sqfs.Path.Bytes × Node) :=
+  match l with
+  | [] => ([], [])
+  | (dd, name, node) :: r =>
+    if dd ≤ d then ([], l)
+    else
+      let (ch, r1) := forest dd r
+      let (sib, r2) := forest d r1
+      (Tree.mk name node ch :: sib, r2)
+
+def parseNodes : List String → Option (List (Nat × Sqfs.Path.Bytes × Node))
+  | [] => some []
+  | d :: k :: p :: u :: g :: dv :: t :: nm :: r => do
+    let n ← nodeOf k p u g dv t
+    let name ← fromHex nm
+    let rest ← parseNodes r
+    pure ((← d.toNat?, name, n) :: rest)
+  | _ => none
+
+def step (line : String) : String :=
+  match words line with
+  | ["split", h] => match fromHex h with
+    | some s => match splitLine packSep s with
+      | .ok toks => s!"ok {toks.length}" ++ String.join (toks.map (fun t => " " ++ toHexTok t))
+      | .error e => "err " ++ showSplitErr e
+    | none => "bad-op"
+  | ["pos", h] => match fromHex h with
+    | some s =>
+      let s' := skipSep packSep s
+      match splitPos packSep s.length s' 0 (s.length - s'.length) with
+      | .ok l => "ok" ++ String.join (l.map (fun p => s!" {p.1}:{p.2}"))
+      | .error e => "err " ++ showSplitErr e
+    | none => "bad-op"
+  | ["num", b, vmax, h] => match b.toNat?, vmax.toNat?, fromHex h with
+    | some b, some vmax, some s => match parseNum b 0 vmax s with
+      | .ok n => s!"ok {n}"
+      | .error .corrupted => "err corrupted"
+      | .error .overflow => "err overflow"
+      | .error .outOfBounds => "err oob"
+    | _, _, _ => "bad-op"
+  | ["parse", ku, fu, kg, fg, h] => match fu.toNat?, fg.toNat?, fromHex h with
+    | some fu, some fg, some s =>
+      showParse (fstreeFromFile { keepUid := ku = "1", forceUid := fu, keepGid := kg = "1", forceGid := fg } s)
+    | _, _, _ => "bad-op"
+  | "desc" :: which :: root :: kind :: perm :: uid :: gid :: devno :: target :: nc :: comps =>
+    match optRoot root, nodeOf kind perm uid gid devno target, nc.toNat?, allSome (comps.map fromHex) with
+    | some ur, some n, some k, some cs =>
+      if k ≠ cs.length then "bad-op"
+      else
+        let r := if which = "old" then Sqfs.QuoteOld.describeNode ur cs n else describeNode ur cs n
+        match r with
+        | .ok l => "ok " ++ toHexTok l
+        | .error e => "err " ++ showDErr e
+    | _, _, _, _ => "bad-op"
+  | "expect" :: root :: kind :: perm :: uid :: gid :: devno :: target :: nc :: comps =>
+    match optRoot root, nodeOf kind perm uid gid devno target, nc.toNat?, allSome (comps.map fromHex) with
+    | some ur, some n, some k, some cs =>
+      if k ≠ cs.length then "bad-op"
+      else match specEntry ur cs n with
+        | some e => showParse ([e], none)
+        | none => showParse ([], none)
+    | _, _, _, _ => "bad-op"
+  | "dtree" :: which :: root :: cnt :: rest =>
+    match optRoot root, cnt.toNat?, parseNodes rest with
+    | some ur, some k, some nodes =>
+      if k ≠ nodes.length then "bad-op"
+      else match nodes with
+        | (0, name, node) :: r =>
+          let (ch, left) := forest 0 r
+          if left ≠ [] then "bad-op"
+          else
+            let t := Tree.mk name node ch
+            let res := if which = "old" then Sqfs.QuoteOld.describe ur t else describe ur t
+            match res with
+            | .ok l => "ok " ++ toHexTok l
+            | .error e => "err " ++ showDErr e
+        | _ => "bad-op"
+    | _, _, _ => "bad-op"
+  | _ => "bad-op"
+
 def run (_args : List String) : IO Unit := do
-  IO.eprintln "sqfsmodel: model C16 not built yet"
+  lineLoop (← IO.getStdin) (← IO.getStdout) step
+
 end Driver.C16
